@@ -4,6 +4,7 @@ import (
 	goErr "errors"
 	"fmt"
 	"reflect"
+	"strings"
 
 	"github.com/cockroachdb/errors"
 	pkgErr "github.com/pkg/errors"
@@ -161,7 +162,10 @@ func runC14(c *core.Ctx) {
 			if errors.UnwrapOnce(y) == nil {
 				break
 			}
-			if _, ok := y.(interface{ Cause() error }); !ok {
+			// every wrapper type of the library offers Cause() next to Unwrap() (that is what makes
+			// pkg/errors.Cause work on its chains), so a library layer counts as a Cause() wrapper
+			// whatever the object at hand says; foreign layers are asked
+			if _, ok := y.(interface{ Cause() error }); !ok && !isLibType(y) {
 				allCause = false
 				break
 			}
@@ -287,4 +291,13 @@ func stdAs(goType string, e error) (bool, error) {
 		return ok, errOrNil(ok, x)
 	}
 	panic("stdAs: " + goType)
+}
+
+// isLibType: the dynamic type of y is defined by the library under test.
+func isLibType(y error) bool {
+	t := reflect.TypeOf(y)
+	for t.Kind() == reflect.Ptr {
+		t = t.Elem()
+	}
+	return strings.HasPrefix(t.PkgPath(), "github.com/cockroachdb/errors")
 }
